@@ -56,6 +56,12 @@ M = {
  "L18_only_first_device_of_wakeup": ("C10", RL, [("          for dev_ev in dev_evs {", "          for dev_ev in dev_evs.into_iter().take(1) {")], "second ready device of a wake-up is not drained"),
  "L19_interrupt_disarms_timer": ("C11", RL, [("          if verbose { eprintln!(\"poll() interrupted\"); }\n          restart_count += 1;", "          if verbose { eprintln!(\"poll() interrupted\"); }\n          working_repeat = WorkingRepeat::Idle;\n          restart_count += 1;")], "a signal stops repeating"),
  "L20_overdue_timer_waits_full_interval": ("C11", RL, [("            Some(Duration::from_millis(1))", "            Some(Duration::from_millis(30))")], "overdue timer polls with a long timeout"),
+ # ---------------- the shipped RealDriver (reached through hook H3 in hybrid runs)
+ "D01_real_poll_tokens_swapped": ("C10", RL, [("            KEYBOARD => {\n              res.push(Device::Keyboard)\n            },", "            KEYBOARD => {\n              res.push(Device::Tablet)\n            },")], "RealDriver::poll reports the tablet switch when the keyboard is ready"),
+ "D02_real_read_error_becomes_busy": ("C20", RL, [("      Err(e) => Err(format!(\"read() from keyboard failed with {}\", e)),", "      Err(_) => Ok(Next::Busy),")], "RealDriver::next_keyboard hides read errors"),
+ "D03_real_send_error_swallowed": ("C20", RL, [("      Err(e) => {\n        Err(format!(\"write() to synthetic keyboard failed with {}\", e))\n      },", "      Err(_) => {\n        Ok(())\n      },")], "RealDriver::send hides write errors"),
+ "D04_real_poll_drops_tablet_token": ("C10", RL, [("            TABLET_SWITCH => {\n              res.push(Device::Tablet)\n            },", "            TABLET_SWITCH => {\n            },")], "RealDriver::poll never reports the tablet switch"),
+ "D05_real_tablet_read_error_becomes_end": ("C20", RL, [("          Err(e) => Err(format!(\"read() from tablet mode switch failed with {}\", e)),", "          Err(_) => Ok(Next::End),")], "RealDriver::next_tablet turns a read error into a clean end"),
  # ---------------- byte layer
  "W01_release_written_as_value_2": ("C18", RW, [("        Event::Released(_) => 0\n      };", "        Event::Released(_) => 2\n      };")], "release encoded as auto-repeat"),
  "W02_no_syn_report": ("C18", RW, [("    send_type_code_value(0, 0, 0);\n    \n    write(self.fd", "    \n    write(self.fd")], "batch not terminated by SYN_REPORT"),
